@@ -45,6 +45,9 @@ SortIsPermutation == LET so == SortIvs(a) IN
                                            = Cardinality({i \in DOMAIN so : so[i] = iv})
                        /\ \A i \in 1..(Len(so) - 1) : LessEq(so[i], so[i + 1])
 FastFormsAgree   == \A d \in 0..S : MergeDecl(a, S, d) = Merge(a, S, d)
+\* coverage is additive: the collection listed m times has m times the pile-up (a small state stands for a depth above any counter width)
+RepA(m) == [q \in 1..(m * Len(a)) |-> a[((q - 1) % Len(a)) + 1]]
+PileupOfRepeat == \A m \in {2, 3} : a # <<>> => Pileup(RepA(m), S) = [p \in 1..S |-> m * Pileup(a, S)[p]]
 OverlapSymmetric == OverlapCount(a, b, S) = OverlapCount(b, a, S)
 ExtendInside     == \A i \in DOMAIN a : \A l \in 1..S : \A st \in {"+", "-"} :
                        Inside(ExtendToSize(a[i], st, l, S), S)
@@ -84,9 +87,10 @@ Pair == [kind |-> "pair", size |-> S, a |-> a, b |-> b,
          cont      |-> Contingency(a, b, S),
          jaccard   |-> Jaccard(a, b, S),
          forbes    |-> Forbes(a, b, S),
-         \* a genome of three contigs of size S: contig 1 holds a and b, contig 2 holds a only, contig 3 holds nothing.
+         \* a genome of three contigs: contig 1 holds a and b, contig 2 holds a only, contig 3 holds nothing.
          \* The table of the genome is the sum of the tables of its contigs (no contig may be skipped, an empty one counts as "neither").
-         genome3   |-> LET t == <<Contingency(a, b, S), Contingency(a, <<>>, S), Contingency(<<>>, <<>>, S)>>
+         \* (the contigs have the sizes S, S + 1 and S + 2, so that pairing a contig with another contig's size changes the table)
+         genome3   |-> LET t == <<Contingency(a, b, S), Contingency(a, <<>>, S + 1), Contingency(<<>>, <<>>, S + 2)>>
                            c == [k \in 1..4 |-> t[1][k] + t[2][k] + t[3][k]]
                        IN [cont |-> c, jaccard |-> <<c[1], c[1] + c[2] + c[3]>>,
                            forbes |-> <<c[1] * (c[1] + c[2] + c[3] + c[4]), (c[1] + c[2]) * (c[1] + c[3])>>],
